@@ -159,3 +159,11 @@ Proof. vm_compute. reflexivity. Qed.
 
 Lemma ambient_table_ok : forallb ambient_row_ok ambient_table = true.
 Proof. vm_compute. reflexivity. Qed.
+
+Lemma procstate_table_ok :
+  forallb (fun r => implb (is_procstate_kind (am_kind r)) (procstate_row_ok r)) ambient_table && registries_live ambient_table = true.
+Proof. vm_compute. reflexivity. Qed.
+
+Lemma localtime_table_ok :
+  forallb (fun r => implb (String.eqb (am_kind r) "localtime") (localtime_row_ok r)) ambient_table = true.
+Proof. vm_compute. reflexivity. Qed.
